@@ -193,6 +193,19 @@ axis): `F[k', k] = G[k', k]` for `k ≤ n // 2`, else `conj G[-k', n - k]` -/
 def hermExt (conj : R → R) (shape : List Nat) (G : List Nat → R) (k : List Nat) : R :=
   if k.getLastD 0 ≤ shape.getLastD 0 / 2 then G k else conj (G (negIdx shape k))
 
+/-- the cell of the opposite frequency in the coordinates of the half-spectrum ARRAY (leading
+axes shifted, last axis not): un-shift, negate mod the output counts `s`, shift back -/
+def mirrorR (s m : List Nat) : List Nat := ishiftR s (negIdx s (fshiftR s m))
+
+/-- What pocketfft's `irfftn` (c2r) makes of a half spectrum that is NOT Hermitian-consistent:
+after the leading axes are inverted it ignores the imaginary part of the entries with last
+index 0 and (even output count) `n/2` — equivalently, the two last-axis planes that are their
+own mirror image are replaced by their Hermitian part `(A[m] + conj A[mirror m]) / 2`; every
+other entry is used as it is.  `half` stands for `1/2`.  (Numpy's convention, tied to the
+library by the correspondence check on arbitrary half spectra.) -/
+def symPlanes (conj : R → R) (half : R) (s : List Nat) (A : List Nat → R) (m : List Nat) : R :=
+  if m.getLastD 0 = 0 ∨ 2 * m.getLastD 0 = s.getLastD 0 then half * (A m + conj (A (mirrorR s m))) else A m
+
 /-- field with values in `R` (state of a `discretisedfield.Field` with complex data; after a
 transform every cell is valid, so validity is not carried) -/
 structure CF (R : Type) where
@@ -289,6 +302,18 @@ def irfftnArr (conj : R → R) (ρs : List (Root R)) (nvdim : Nat) (s : List Nat
   ⟨s, fun j => tab nvdim fun c =>
     idftN ρs s (hermExt conj s fun m => compA a c (ishiftR a.shape m)) j⟩
 
+/-- the half-spectrum array with its self-mirror planes replaced by their Hermitian part -/
+def symArr (conj : R → R) (half : R) (nvdim : Nat) (s : List Nat) (a : NDA (List R)) : NDA (List R) :=
+  ⟨a.shape, fun m => tab nvdim fun c => symPlanes conj half s (compA a c) m⟩
+
+/-- `irfftn(ifftshift(array, axes[:-1]), axes, s)` on ANY half spectrum, as pocketfft computes
+it: the inverse DFT of the Hermitian extension of the half spectrum whose self-mirror planes
+were replaced by their Hermitian part (`symPlanes`).  On Hermitian-consistent half spectra this
+is `irfftnArr` (`Lemmas/C11Irf.lean`). -/
+def irfftnArrNP (conj : R → R) (half : R) (ρs : List (Root R)) (nvdim : Nat) (s : List Nat)
+    (a : NDA (List R)) : NDA (List R) :=
+  irfftnArr conj ρs nvdim s (symArr conj half nvdim s a)
+
 /-- `Field.fftn` on `mesh.fftn()` -/
 def fftn (ρs : List (Root R)) (f : CF R) : M (CF R) :=
   match meshFftn f.mesh false with
@@ -312,6 +337,13 @@ def irfftn (conj : R → R) (ρs : List (Root R)) (f : CF R) (shape : Option (Li
   match meshIfftn f.mesh true shape with
   | .error e => .error e
   | .ok k => finish f k (irfftnArr conj ρs f.nvdim k.n f.data) true
+
+/-- `Field.irfftn(shape)` on an arbitrary (not necessarily Hermitian-consistent) half spectrum:
+what the library computes (`irfftnArrNP`) -/
+def irfftnNP (conj : R → R) (half : R) (ρs : List (Root R)) (f : CF R) (shape : Option (List Nat)) : M (CF R) :=
+  match meshIfftn f.mesh true shape with
+  | .error e => .error e
+  | .ok k => finish f k (irfftnArrNP conj half ρs f.nvdim k.n f.data) true
 
 end ring
 
@@ -338,6 +370,9 @@ instance : Mul Poly := ⟨fun a b => ⟨a.terms.flatMap fun t1 => b.terms.map fu
 namespace Poly
 
 def const (re im : Rat) : Poly := ⟨[([], re, im)]⟩
+
+/-- the constant `1/2` (parameter `half` of `irfftnNP`) -/
+def half : Poly := const (1 / 2) 0
 
 /-- the monomial `ζ_a^k` among `d` axes -/
 def mono (a k : Nat) : Poly := ⟨[(List.replicate a 0 ++ [k], 1, 0)]⟩
